@@ -74,6 +74,8 @@ def corpus(tier):
         yield space.to_desc(1, gates, consts=("0", "1"), outputs="all")
     for gates in space.circuits(1, 2, types=("and", "xor", "not", "nor"), max_arity=2, consts=("0", "1"), min_gates=2):
         yield space.to_desc(1, gates, consts=("0", "1"), outputs="sinks")
+    for gates in space.circuits(0, 2, types=("and", "xor", "not", "nor"), max_arity=2, consts=("0", "1"), min_gates=1):
+        yield space.to_desc(0, gates, consts=("0", "1"), outputs="sinks")   # no primary input at all
     for gates in space.circuits(1, 1, max_arity=2, consts=("x",), min_gates=1):
         yield space.to_desc(1, gates, consts=("x",), outputs="sinks")
         yield space.to_desc(1, gates, consts=("x",), outputs="all")
@@ -99,6 +101,9 @@ def bb_corpus():
         conn2 = {p: v for p, v in (("i", "a"), ("o1", o1), ("o2", o2)) if v}
         yield {"name": "twobb", "nodes": nodes,
                "bbs": [["t0", "two", BBS["two"][0], BBS["two"][1], conn2], ["f1", "ff", BBS["ff"][0], BBS["ff"][1], {"clk": "b", "d": "z", "q": "q"}]]}
+    # no primary input: a flop ring clocked by a constant
+    yield {"name": "ring", "nodes": [["k", "1", [], False], ["q", "buf", [], True], ["d", "not", ["q"], False]],
+           "bbs": [["f0", "ff", BBS["ff"][0], BBS["ff"][1], {"clk": "k", "d": "d", "q": "q"}]]}
     # an escaped INSTANCE name
     yield {"name": "escinst", "nodes": [["a", "input", [], False], ["b", "input", [], False], ["y", "buf", [], True]],
            "bbs": [["\\i1", "ff", BBS["ff"][0], BBS["ff"][1], {"clk": "a", "d": "b", "q": "y"}]]}
